@@ -361,7 +361,37 @@ pub fn atom_of(k: AtomKind, b: &mut Builder, r: &mut Rng) -> E {
     }
 }
 
+/// operands whose failure arises inside a construct: an f-string with a failing segment, a
+/// member of a map that has no such key but is named like a built-in, a built-in method on a
+/// failing receiver: a failing operand like any other
+fn construct_atom(b: &mut Builder, r: &mut Rng) -> E {
+    let failing = match r.below(3) {
+        0 => {
+            let c = inj_class(r);
+            b.cb(vec![Answer::Fail(c)], vec![])
+        }
+        1 => b.unbound(),
+        _ => E::FailLit(*r.pick(&FailLit::ALL)),
+    };
+    match r.below(4) {
+        0 => E::FStr(vec![FSeg::Lit("s".into()), FSeg::Expr(failing)]),
+        1 => {
+            let m = b.bound(V::map(vec![("present", V::Int(1))]));
+            E::Member(Box::new(m), r.pick(&["size", "filter", "contains", "min"]).to_string())
+        }
+        2 => E::MCall(Box::new(failing), r.pick(&["size", "toUpper"]).to_string(), vec![]),
+        _ => {
+            // an f-string that evaluates (truthy: never empty)
+            let s = b.cb(vec![Answer::V(V::s("seg"))], vec![]);
+            E::FStr(vec![FSeg::Lit("s".into()), FSeg::Expr(s)])
+        }
+    }
+}
+
 fn rand_atom(b: &mut Builder, r: &mut Rng) -> E {
+    if r.chance(1, 12) {
+        return construct_atom(b, r);
+    }
     // the same call written twice is evaluated twice (or not at all where the operand is
     // skipped): every occurrence of an existing site adds an answer to its script
     if !b.case.scripts.is_empty() && r.chance(1, 8) {
@@ -980,11 +1010,15 @@ pub fn build_path(b: &mut Builder, r: &mut Rng, d: usize, cfg: PathCfg, mask: u3
         _ => b.bound(tree),
     };
     let mut e = root;
+    // a missing last key may bear the name of a built-in function or macro: it is still just
+    // a key that is not there
+    let callable_leaf = d >= 1 && matches!(cfg, PathCfg::MissingAt(l) if l == d) && r.chance(1, 3);
     for i in 0..d {
+        let name = if callable_leaf && i + 1 == d { *r.pick(&["size", "filter", "min", "map", "contains", "round"]) } else { FIELDS[i] };
         e = if mask & (1 << i) != 0 {
-            E::Index(Box::new(e), Box::new(E::Lit(V::s(FIELDS[i]))))
+            E::Index(Box::new(e), Box::new(E::Lit(V::s(name))))
         } else {
-            E::Member(Box::new(e), FIELDS[i].to_string())
+            E::Member(Box::new(e), name.to_string())
         };
     }
     e
@@ -1206,6 +1240,23 @@ fn gen08_expr(b: &mut Builder, r: &mut Rng, depth: u32) -> E {
                 0 => E::or(E::Has(Box::new(p)), E::Has(Box::new(p2))),
                 1 => E::Coalesce(vec![p2, p, E::Lit(V::s("fallback"))]),
                 _ => E::List(vec![E::Has(Box::new(p2)), E::Has(Box::new(p))]),
+            };
+        }
+        // the path inside an f-string, as the receiver of a built-in method, or as the range of
+        // a macro: all of them fail the way the path fails, so absent stays absent
+        if r.chance(1, 6) {
+            let absent_like = !matches!(cfg, PathCfg::Present | PathCfg::NullLeaf | PathCfg::RootCallback | PathCfg::RootProgram | PathCfg::LiteralPresent);
+            let wrapped = match r.below(4) {
+                0 => E::FStr(vec![FSeg::Lit("v=".into()), FSeg::Expr(p.clone())]),
+                1 if absent_like => E::MCall(Box::new(p.clone()), r.pick(&["size", "toUpper", "trim"]).to_string(), vec![]),
+                2 if absent_like => E::MCall(Box::new(p.clone()), "contains".to_string(), vec![E::Lit(V::s("a"))]),
+                3 if absent_like => E::mac(MacroKind::Map, p.clone(), "x", vec![E::var("x")]),
+                _ => E::FStr(vec![FSeg::Expr(p.clone()), FSeg::Lit("!".into())]),
+            };
+            return match r.below(3) {
+                0 => E::Has(Box::new(wrapped)),
+                1 => E::Coalesce(vec![wrapped, E::Lit(V::s("fallback"))]),
+                _ => E::or(E::Has(Box::new(wrapped)), E::Lit(V::Bool(false))),
             };
         }
         let inner = if depth > 0 && r.chance(1, 4) {
